@@ -194,8 +194,10 @@ func parseDNSSL(d rawDNSSL, maxInterval time.Duration) (*plugin.DNSSL, error) {
 
 		// An empty label cannot be encoded: it is the root label which ends a
 		// name on the wire, so ".." would be advertised as an empty name and
-		// "a..b" as the two names "a" and "b".
-		if strings.HasPrefix(name, ".") || strings.Contains(name, "..") {
+		// "a..b" as the two names "a" and "b". Only a single trailing dot is
+		// removed above, so a name which still ends in one has an empty label
+		// as well.
+		if strings.HasPrefix(name, ".") || strings.HasSuffix(name, ".") || strings.Contains(name, "..") {
 			return nil, fmt.Errorf("domain name %q must not contain empty labels", d)
 		}
 
